@@ -53,7 +53,8 @@ def cases(tier, seed):
             ('nevents', ['many', 'smallest-accepted', 'one-more']),      # 400 events is the smallest file the workflow accepts
             ('failed_row', ['none', 'first', 'middle']),                  # a row whose file does not exist, listed above the rows under test
             ('mefnone', [False, True]),                                   # a manufacturer value given as None in the bead rows
-            ('samplevolt', ['recorded', 'absent'])]                       # sample files that do not record the optional detector voltage
+            ('samplevolt', ['recorded', 'absent']),
+            ('chnames', ['plain', 'blank'])]                              # fluorescence channel names with a blank inside                       # sample files that do not record the optional detector voltage
     # (floating-point files always hold a few scatter events beyond the declared range: they are not clipped by the instrument)
     done = []
     for cfg in explore.deviations(dims, 1 if tier == 'quick' else 2):
@@ -112,7 +113,7 @@ def build_experiment(c, d):
         hist = c['hist']
     else:
         cfg = c['cfg']
-        insts = [wg.instrument(i) for i in range(cfg['ninst'])]
+        insts = [wg.instrument(i, blank_names=(cfg.get('chnames') == 'blank')) for i in range(cfg['ninst'])]
         beads = []
         for k in range(cfg['nbeads']):
             inst = insts[k % len(insts)]
